@@ -2,6 +2,7 @@
 use rand_core::{CryptoRng, Error, RngCore};
 
 /// splitmix64 stream; every byte the repo asks for comes from here, so a run is a function of the seed
+#[derive(Clone)]
 pub struct SeedRng {
     s: u64,
     pub consumed: u64,
